@@ -11,8 +11,8 @@ encode = default_encode(SIG)
 decode = default_decode(SIG)
 TASK_REQS = 2000
 RULE = ('pow requests (base, exponent): bases 0, +-1, +-2, 2^k, 2^k+-1, floor(2^(BITS/e))+-1 (power overflow boundary), negative '
-        'bases hitting exactly MIN, power-of-two bases 2^k with exponents making k*e wrap 2^32, structured values; exponents 0..3, parity pairs, BITS-1, BITS, u32::MAX, uniform. log requests '
-        '(x, base): b^k, b^k-1, b^k+1, MAX, 1, non-positive x, bases 0, 1, 2, 10, MAX, x itself. All (base, exponent<=17) at 8 bits. '
+        'bases hitting exactly MIN, bases of k+1 bits (powers of two and others) with exponents making k*e or (k+1)*e wrap 2^32, structured values; exponents 0..3, parity pairs, BITS-1, BITS, u32::MAX, uniform. log requests '
+        '(x, base): b^k, b^k-1, b^k+1, MAX, 1, non-positive x, bases 0, 1, 2, 10, MAX, x itself; 2^k-1 and 2^k for every bit length k and 10^k-1, 10^k for every k (a seed-dependent stride on wide types). All (base, exponent<=17) at 8 bits. '
         'Non-trivial: the exact power is within one bit of the boundary, equals MIN, overflows; the log argument is an exact power '
         'of the base or one off; invalid log argument/base; distinct = distinct request lines')
 
@@ -58,6 +58,23 @@ def requests(cfg, rng, n, tier, part, nparts, st):
                 yield 'log', (cfg.val(j & 255), cfg.val(j >> 8))
         st['exhaustive'].append('%s: all bases x exponents 0..=17 and 6 large exponents; all (x, base) log pairs' % cfg.name)
         return
+    # logarithms at every bit length (2^k - 1, 2^k) and at every power of ten (10^k - 1, 10^k): an estimate of the digit count from the bit length
+    # that is off by one only shows at particular lengths; a seed-dependent stride when the budget of the configuration is smaller than its width
+    stride = max(1, -(-(b + 1) // max(256, 2 * n * nparts)))
+    ks = list(range(rng.randrange(stride), b + 1, stride))
+    lo, hi = (len(ks) * part // nparts, len(ks) * (part + 1) // nparts)
+    for k in ks[lo:hi]:
+        for v in ((1 << k) - 1, 1 << k):
+            if 1 <= v <= cfg.max:
+                yield 'log', (v, 10)
+                yield 'log', (v, rng.choice((3, 7, 16, 100, 255)))
+    kmax10 = len(str(cfg.max)) - 1
+    k10 = list(range(rng.randrange(stride), kmax10 + 1, stride))
+    lo, hi = (len(k10) * part // nparts, len(k10) * (part + 1) // nparts)
+    for k in k10[lo:hi]:
+        yield 'log', (10 ** k, 10)
+        if k:
+            yield 'log', (10 ** k - 1, 10)
     for _ in range(n):
         r = rng.random()
         if r < 0.5:
@@ -84,10 +101,15 @@ def requests(cfg, rng, n, tier, part, nparts, st):
                 k = rng.choice((1, 2, 3, 4, 8, 16, 32, 64, rng.randrange(1, b)))
                 k = min(k, b - 1)
                 m = rng.choice((1, 1, 2, 3))
-                e = -(-(m << 32) // k) + rng.choice((0, 0, 1, 2, rng.randrange(0, b)))
+                a = 1 << k
+                L = k
+                if rng.random() < 0.5:
+                    # any base of that size: its bit length (k + 1) or floor(log2) (k) times the exponent wraps
+                    a |= rng.getrandbits(k)
+                    L = rng.choice((k, k + 1))
+                e = -(-(m << 32) // L) + rng.choice((0, 0, 1, 2, rng.randrange(0, b)))
                 if e >= 1 << 32:
                     e = (1 << 32) - 1
-                a = 1 << k
                 if cfg.signed and rng.random() < 0.4:
                     a = -a
             elif rr < 0.85:
